@@ -31,7 +31,13 @@ _cfg = _fn_body(_src('src/user/supla_esp_cfg.c'), 'supla_esp_save_state')
 
 # last call statement of countdown(): startstop() (unchanged tree) or timer_cb(NULL) (proposed fix)
 _calls = re.findall(r'\b(supla_esp_countdown_timer_startstop|supla_esp_countdown_timer_cb)\s*\(', _cd)
-_evalcmd = ('1' if _calls[-1].endswith('_cb') else '0') if _calls else 'PATTERN_NO_LONGER_MATCHES_countdown_tail'
+# 0: only startstop() at the end (original code); 2: the callback body first, startstop() at the end (repair
+# docs/fixes/C07_countdown_evaluate_first.diff); 1: callback body at the end (first repair 06ec55a, superseded: a new short
+# timer could expire inside its own command)
+if not _calls: _evalcmd = 'PATTERN_NO_LONGER_MATCHES_countdown_tail'
+elif _calls[-1].endswith('_cb'): _evalcmd = '1'
+elif _calls[0].endswith('_cb'): _evalcmd = '2'
+else: _evalcmd = '0'
 
 G.GROUPS['RelayConsts'] = dict(
     pre='#include <stddef.h>\n#include <proto.h>\n#include <srpc.c>\n#include <supla_esp.h>\n#include <supla_esp_cfg.h>\n#include <supla_esp_gpio.h>\n',
